@@ -169,7 +169,7 @@ pub enum Radix {
 
 pub fn fmt_imm(v: i32, radix: Radix, upper: bool) -> String {
     match radix {
-        Radix::Dec if v != i32::MIN => format!("{v}"),
+        Radix::Dec => format!("{v}"),
         Radix::Char if (32..=126).contains(&v) && v != 39 && v != 92 && v != 34 => {
             format!("'{}'", char::from(v as u8))
         }
@@ -188,7 +188,7 @@ pub fn fmt_imm(v: i32, radix: Radix, upper: bool) -> String {
         }
         Radix::Hex | Radix::Dec | Radix::Bin | Radix::Char => {
             // two's-complement hex spelling for negatives; magnitude for non-negatives
-            if v < 0 && v != i32::MIN && (v as u32) % 3 == 0 {
+            if v < 0 && ((v as u32) % 3 == 0 || (v == i32::MIN && upper)) {
                 if upper {
                     format!("-0X{:X}", -(i64::from(v)))
                 } else {
